@@ -427,6 +427,7 @@ inductive Op where
   | edit (m : Mode) (a : Var)                -- `EditSubsetMode.update(dc, a)` in mode `m`
   | evalCur (d : DataId) (v : View)          -- `group.subsets[d].to_mask(view)`
   | useCur                                   -- `x = group.subset_state`
+  | child (a : Var) (i : Nat)                -- `x = a.state1` / `a.state2` / `a.states[i]` (the object itself)
   deriving Repr
 
 /-- `[vars[a] for a in as]`, `none` if some variable does not exist. -/
@@ -436,6 +437,24 @@ def lookupAll {α : Type} (xs : List α) : List Nat → Option (List α)
     match xs[a]?, lookupAll xs as with
     | some x, some r => some (x :: r)
     | _, _ => none
+
+/-- The `i`-th operand of a composite selection value. -/
+def Expr.child : Expr → Nat → Option Expr
+  | .leaf _, _ => none
+  | .bin _ a b, i => if i = 0 then some a else if i = 1 then some b else none
+  | .inv a, i => if i = 0 then some a else none
+  | .multiOr es, i => es[i]?
+
+/-- `state.state1`, `state.state2`, `state.states[i]`. -/
+def Graph.child (g : Graph) (n : NodeId) (i : Nat) : Option NodeId :=
+  match g.nodes[n]? with
+  | some (.bin _ l r) => if i = 0 then some l else if i = 1 then some r else none
+  | some (.inv c) => if i = 0 then some c else none
+  | some (.multiOr lst) =>
+    match g.lists[lst]? with
+    | some cs => cs[i]?
+    | none => none
+  | _ => none
 
 /-- What an op lets the outside see. -/
 inductive Obs where
@@ -497,6 +516,13 @@ def step (env : Env) (s : State) : Op → State × Obs
     | none => (s, .bad)
   | .evalCur d v => (s, .mask (s.cur.denote env d v))
   | .useCur => ({ s with vars := s.vars ++ [s.cur] }, .none)
+  | .child a i =>
+    match s.vars[a]? with
+    | some x =>
+      match x.child i with
+      | some y => ({ s with vars := s.vars ++ [y] }, .none)
+      | none => (s, .bad)
+    | none => (s, .bad)
 
 def run (env : Env) : State → List Op → State × List Obs
   | s, [] => (s, [])
@@ -590,6 +616,13 @@ def step (tbl : ClassTable) (env : Env) (s : State) : Op → State × Out
     | none => (s, ⟨.bad, none⟩)
   | .evalCur d v => observe s (toMask tbl env s.h.g.fuel s.h s.cur d v .kw)   -- `Data.get_mask`
   | .useCur => ({ s with vars := s.vars ++ [s.cur] }, ⟨.none, none⟩)
+  | .child a i =>
+    match s.vars[a]? with
+    | some x =>
+      match s.h.g.child x i with
+      | some y => ({ s with vars := s.vars ++ [y] }, ⟨.none, none⟩)
+      | none => (s, ⟨.bad, none⟩)
+    | none => (s, ⟨.bad, none⟩)
 
 def run (tbl : ClassTable) (env : Env) : State → List Op → State × List Out
   | s, [] => (s, [])
